@@ -183,6 +183,16 @@ def source_order(prog):
     return p
 
 
+def _front_tokens(text):
+    import syntax_tie
+
+    try:
+        tk = syntax_tie.syntax_tokens(text, leaves="value")
+    except Exception:  # noqa: BLE001
+        return None
+    return tk[0] if tk else None
+
+
 def impl_projection(res, nodes):
     out = []
     for e in res["errs"]:
@@ -1282,6 +1292,7 @@ def _run(ctx, pool, res):
                                   {"sched_case": sched_family.strip_case(r["case"])})
     # model correspondence -----------------------------------------------------------------------------------
     disagreements = []
+    front_stats = {"compared": 0, "skipped": 0}
     if ctx["model_ok"] and model_reqs:
         resps = run_model([{"k": "check", "prog": source_order(p)} for _, p, _, _ in model_reqs])
         for (tag, p, rv, text), resp in zip(model_reqs, resps):
@@ -1302,6 +1313,24 @@ def _run(ctx, pool, res):
             else:
                 if pi != pm:
                     disagreements.append((tag, text, "messages (kind, construct line): implementation %r / model %r" % (pi, pm)))
+        # the whole front end from the real token stream: lexer + denter tokens of the same text -> grammar model
+        # (Syntax.lean) -> validation model; must give what the validation model gives on the generating AST
+        toks = pool.map(_front_tokens, [text for _, _, _, text in model_reqs], chunksize=8)
+        idx = [i for i, t in enumerate(toks) if t is not None]
+        front_stats["skipped"] = len(toks) - len(idx)
+        fresps = run_model([{"k": "vtext", "toks": toks[i]} for i in idx])
+        for i, fr in zip(idx, fresps):
+            tag, p, rv, text = model_reqs[i]
+            resp = resps[i]
+            if "error" in resp:
+                continue
+            front_stats["compared"] += 1
+            if "error" in fr:
+                disagreements.append((tag, text, "front-end model error: " + fr["error"][:200]))
+            elif not fr.get("parsed"):
+                disagreements.append((tag, text, "the grammar model does not read the token stream of a text the parser accepted"))
+            elif bool(fr.get("raised")) != bool(resp.get("raised")) or model_projection(fr) != model_projection(resp):
+                disagreements.append((tag, text, "validation model on the parsed token stream %r / on the generating AST %r" % (model_projection(fr)[:6], model_projection(resp)[:6])))
     elif not ctx["model_ok"]:
         res["unexplained"].append({"what": "the Lean model does not build: " + "; ".join(ctx["build"].get("build_errors", [])[:3])})
     res["violations"] = [v for v in res["violations"] if v["replay_obj"]["property"] == prop]
@@ -1320,6 +1349,7 @@ def _run(ctx, pool, res):
         "rule": "programs from the typed well-formed generator tools/vgen.py (layout variants, permutations of definitions), single-fault mutations of them (catalogue of %d classes at random applicable positions), text mutations; distinct by text hash; non-trivial: carries a fault / is a text mutation that did not raise / is a well-formed program of more than 400 characters / was accepted and driven by the scheduler" % len(vgen.FAULT_CLASSES),
         "traces_validated_against_impl": len(model_reqs) if ctx["model_ok"] else 0,
         "disagreements_checked": len(disagreements),
+        "front_end_from_tokens": front_stats,
         "fault_classes": hist_cls,
         "message_kinds": hist_kinds,
         "text_mutations": text_kinds,
